@@ -35,6 +35,7 @@ THEOREMS = [
     "C18_in_scope_satisfiable",
     "C18_many_single", "C18_many_agree", "C18_many_recursive_first_only", "C18_many_satisfiable",
     "C18_agree_refuted_old_origin_uncaught", "C18_many_usage_after_lines",
+    "C18_agree_refuted_old_stop_swallowed", "C18_many_refuted_old_stop_swallowed",
 ]
 RULE = ("(1) every one of the 2400 one-argument configurations (argument kind - the seven of the statement plus "
         "'missing' (no scheme, no such path), 'badurl' (urlparse raises) and 'refusedurl' (a scheme, but model.Origin "
@@ -77,13 +78,36 @@ RULE = ("(1) every one of the 2400 one-argument configurations (argument kind - 
         "the middle of the path, a chain ending in a dangling link, a self-loop and a two-link cycle; under both "
         "dereference settings, automatic and explicit types, -r, --verify with the canonical object's identifier, in "
         "invocations with several arguments and under every spelling of (4); reference: the library call on "
-        "os.path.realpath of the chain when it is followed, the FIRST link's own target text when it is not")
+        "os.path.realpath of the chain when it is followed, the FIRST link's own target text when it is not; "
+        "(6) git repository STATES per fixture set: loose / packed / mixed references, packed-refs with only its "
+        "header, peeled tag lines, no reference at all, bare, detached HEAD, references to missing objects (dangling "
+        "branches), reference names that are not ASCII / not UTF-8, the .git directory itself as the argument; plus a "
+        "repository whose references cannot be read (empty / garbage / truncated packed-refs: kind badrefs, usage "
+        "error under -t snapshot, a directory otherwise); the snapshot reference is built from git's own listing; "
+        "(7) audit dimensions: the invocation WRITTEN differently (short/long option names, --opt=value, -oVALUE, a "
+        "flag repeated with the last one winning, an overridden -t, options after the objects) on a quarter of all "
+        "cases; wrong option values, no argument, unknown options, every malformed shape of the --verify value (a "
+        "usage error, never a traceback) and the help; the meaning of `--exclude` in the table varied per fixture set "
+        "(several patterns, duplicates, patterns matching files, '', '[', '*', non-ASCII, not valid UTF-8, absolute "
+        "patterns); an EMPTY file / directory / standard input and standard input of several blocks; a file named "
+        "'-' in the working directory; a FIFO as argument and inside a tree; 60 nested directories; names with a tab "
+        "or a leading '-'; '.', './', '..' with the working directory inside the object, a path through a link to the "
+        "root, two leading slashes; 40 (thorough 150) arguments and no argument; and HISTORIES: two invocations in one "
+        "process with the file / directory / link changed (or not) in between - nothing may be remembered")
 TRUSTED = ["click option parsing, os.path.*, os.scandir, dulwich and git are modelled by a table per argument kind "
            "(model/Cli.v: isfile/isdir/islink/lstat/stat/urlparse scheme/urlparse raises/Origin refuses/is-a-git-repository), "
            "not verified; which kind a string argument has is decided by calling urlparse and model.Origin on it",
            "the identifiers themselves are the library's (Content.from_file/from_bytes, Directory.from_disk, "
            "Origin.swhid, Snapshot.swhid): C18 is about which object the command designates and what it prints"]
-ASSUMPTIONS = ["a link that leads nowhere (dangling chain, cycle) designates nothing when it is to be followed (usage "
+ASSUMPTIONS = ["a FIFO (exists, neither file nor directory) designates nothing: usage error under --type auto, the only "
+               "type generated for it",
+               "recorded, not generated (reported to the coordinator): a tree deeper than the interpreter's recursion limit "
+               "(the library itself raises RecursionError: open finding of C06/C13); an ABSOLUTE --exclude pattern "
+               "together with a root spelled through a link (<link>/../x, <link to the parent>/x: from_disk relativises the pattern against the lexically "
+               "normalised root, so it never matches); in a recursive listing a special file (FIFO, socket, device) "
+               "is printed with an EMPTY name because the library's node has no path: the name of such a line is not "
+               "checked",
+               "a link that leads nowhere (dangling chain, cycle) designates nothing when it is to be followed (usage "
                "error under --type auto: the only type in scope) and itself, as a content, under --no-dereference; "
                "explicit -t content / -t directory on such a link is out of scope and not generated for cycles (the "
                "command hashes the link text / ends in OSError ELOOP: observed, not in the table)",
@@ -95,7 +119,7 @@ ASSUMPTIONS = ["a link that leads nowhere (dangling chain, cycle) designates not
                "command applies -r to the first one and ignores the others: recorded as theorem "
                "C18_many_recursive_first_only, compared with the model, not counted as a violation); exclusion "
                "patterns mean whatever the library's ignore_directories_patterns makes of them (fnmatch on the "
-               "root-relative path), nothing more is assumed; no file named '-' in the working directory; the argument of kind url has "
+               "root-relative path), nothing more is assumed; a file named '-' exists in the working directory of the stdin runs: '-' is standard input all the same; the argument of kind url has "
                "a scheme and is not an existing path; distinct designated objects of one fixture set have distinct "
                "identifiers (asserted when the fixtures are built)",
                "explicit --type: in scope when it equals the type of the designated object (content for file, "
@@ -113,7 +137,8 @@ ASSUMPTIONS = ["a link that leads nowhere (dangling chain, cycle) designates not
                "stdout has under the C/POSIX locale; the subprocess runs use the real stream"]
 CASE_TIMEOUT = 60
 
-KINDS = ["file", "dir", "linkfile", "linkdir", "stdin", "url", "gitrepo", "missing", "badurl", "refusedurl"]
+KINDS = ["file", "dir", "linkfile", "linkdir", "stdin", "url", "gitrepo", "missing", "badurl", "refusedurl", "badrefs"]
+GIT_STATES = ["normal", "headeronly", "mixed", "peeled", "norefs", "bare", "detached", "missingobj"]
 STRING_KINDS = ("url", "missing", "badurl", "refusedurl")      # arguments that are not paths: the string itself
 TYPES = ["auto", "content", "directory", "origin", "snapshot"]
 VERS = ["none", "match", "nonmatch"]
@@ -255,7 +280,7 @@ def library_error(cfg_type, arg, excluded):
         if cfg_type == "content":
             from_disk.Content.from_file(path=path)
         else:
-            _dir_id(path, excluded)
+            _dir_id(path, excluded, EXCLUDE)
     except Exception as e:
         return type(e).__name__
     return None
@@ -292,7 +317,7 @@ def _git(repo, *args):
 
 
 def _rname(rng, nonutf8, prefix=b""):
-    alphabet = b"abcdefghijklmnopqrstuvwxyzABCXYZ0123456789_.+ "
+    alphabet = b"abcdefghijklmnopqrstuvwxyzABCXYZ0123456789_.+ \t"
     n = rng.randrange(1, 9)
     s = bytes(rng.choice(alphabet) for _ in range(n)).strip() or b"n"
     if s.startswith(b"."):
@@ -381,9 +406,9 @@ def build_fixture(fxspec):
                 if n not in used and n != b"-":
                     used.add(n)
                     return os.path.join(root, n)
-        fx["file"] = top(b"f")
+        fx["file"] = top(b"-f" if fxspec.get("dashnames") else b"f")       # a name that looks like an option
         with open(fx["file"], "wb") as f:
-            f.write(_rdata(rng))
+            f.write(b"" if fxspec.get("empties") else _rdata(rng))         # empties: the file argument is EMPTY
         if rng.random() < 0.3:
             os.chmod(fx["file"], 0o755)
         fx["dir"] = top(b"t")
@@ -398,6 +423,10 @@ def build_fixture(fxspec):
         tgt = os.path.basename(fx["linkdir_target"]) if rng.random() < 0.7 else fx["linkdir_target"]
         os.symlink(tgt, fx["linkdir"])
         fx["stdin"] = rng.choice([b"", b" ", b"\n"]) + _rdata(rng) + rng.choice([b"\n", b" \n", b"\r\n", b"\x00", b"\t"])
+        if fxspec.get("empties"):
+            fx["stdin"] = b""                                               # ... and so is standard input
+        elif fxspec.get("bigstdin"):
+            fx["stdin"] = fx["stdin"] * (300000 // len(fx["stdin"]) + 1)    # several read blocks
         scheme = rng.choice(["https", "http", "git", "ssh", "git+ssh", "svn", "ftp", "file"])
         fx["url"] = "%s://host%d.example.org/%s" % (scheme, rng.randrange(1000), rng.choice(["a/b.git", "x", "p?q=1#f", "é"]))
         # every shape of URL that has a scheme: with an authority, with an empty one, without one
@@ -453,8 +482,65 @@ def build_fixture(fxspec):
             # symbolic references besides HEAD, as a non-mirror clone leaves them
             _git(r, "symbolic-ref", "refs/remotes/origin/HEAD", "refs/heads/feature/x")
             _git(r, "symbolic-ref", "refs/heads/alias-of-tag", "refs/tags/v1")
-        if rng.random() < 0.5:
+        state = fxspec.get("gitstate", "normal")
+        for refname in ("refs/heads/f\u00e9ature/\u00fc", os.fsdecode(b"refs/heads/b\xff\xfe")):
+            try:                      # reference names that are not ASCII / not valid UTF-8 (git accepts both)
+                _git(r, "update-ref", refname, "HEAD")
+            except RuntimeError:
+                pass
+        if state == "normal":
+            if rng.random() < 0.5:
+                _git(r, "pack-refs", "--all")
+        elif state == "headeronly":     # a packed-refs file with its header comment and nothing else; every ref is loose
+            with open(os.path.join(repo, b".git", b"packed-refs"), "wb") as f:
+                f.write(b"# pack-refs with: peeled fully-peeled sorted \n")
+        elif state == "peeled":         # every ref packed; the annotated tags get a ^peeled line
             _git(r, "pack-refs", "--all")
+        elif state == "mixed":          # packed refs, then loose ones on top (one of them overriding a packed one)
+            _git(r, "pack-refs", "--all")
+            _git(r, "branch", "loose-after-packing")
+            with open(os.path.join(repo, b"README"), "ab") as f:
+                f.write(b"third\n")
+            _git(r, "commit", "-q", "-am", "third")
+            _git(r, "tag", "loose-tag")
+        elif state == "missingobj":     # references whose object is not in the repository: dangling branches
+            for name in (b"broken", b"nested/broken2"):
+                os.makedirs(os.path.dirname(os.path.join(repo, b".git", b"refs", b"heads", name)), exist_ok=True)
+                with open(os.path.join(repo, b".git", b"refs", b"heads", name), "wb") as f:
+                    f.write(("%040x\n" % rng.getrandbits(160)).encode())
+            fx["dangling_refs"] = [b"refs/heads/broken", b"refs/heads/nested/broken2"]
+        elif state == "detached":       # HEAD is a commit id, not a symbolic reference
+            _git(r, "checkout", "-q", "--detach", "HEAD~1")
+        elif state == "norefs":         # git init and nothing else: no reference at all, HEAD points at an unborn branch
+            shutil.rmtree(os.path.join(repo, b".git"))
+            _git(r, "init", "-q", "-b", rng.choice(["master", "main"]))
+        elif state == "bare":           # a bare clone: the references live in the directory itself
+            bare = top(b"gb")
+            env = dict(os.environ)
+            env.update(_GIT_ENV)
+            subprocess.run(["git", "clone", "-q", "--bare", r, os.fsdecode(bare)], check=True, env=env,
+                           stdout=subprocess.PIPE, stderr=subprocess.PIPE)
+            fx["gitrepo"] = bare
+        if state != "bare":
+            fx["gitdir"] = os.path.join(fx["gitrepo"], b".git")      # the repository directory itself as an argument
+        # a repository whose references cannot be read: an EMPTY packed-refs file (dulwich raises StopIteration; git
+        # itself is happy with it), or garbage in it
+        bad = top(b"gx")
+        os.mkdir(bad)
+        fx["badrefs"] = bad
+        rb = os.fsdecode(bad)
+        _git(rb, "init", "-q", "-b", "main")
+        with open(os.path.join(bad, b"README"), "wb") as f:
+            f.write(_rdata(rng))
+        os.mkdir(os.path.join(bad, b"subdir"))
+        with open(os.path.join(bad, b"subdir", b"x.c"), "wb") as f:
+            f.write(_rdata(rng))
+        _git(rb, "add", "-A")
+        _git(rb, "commit", "-q", "-m", "only")
+        _git(rb, "tag", "-a", "-m", "t", "t1")
+        with open(os.path.join(bad, b".git", b"packed-refs"), "wb") as f:
+            f.write({"empty": b"", "garbage": b"this is not a packed-refs file\n",
+                     "truncated": b"# pack-refs with: peeled\n0123"}[fxspec.get("badrefs", "empty")])
         # spellings of path arguments: <realdir>/../x goes through a real directory; hop/ln is a link to the directory
         # fixture, whose parent is the root, so hop/ln/../x IS root/x for the operating system, while the lexical
         # collapse hop/x is a decoy (another file / directory of the same name) or nothing at all
@@ -474,6 +560,24 @@ def build_fixture(fxspec):
                 with open(os.path.join(dp, b"decoy"), "wb") as f:
                     f.write(_rdata(rng))
         fx["decoys"] = decoys
+        os.symlink(b"..", os.path.join(fx["hop"], b"up"))                  # hop/up/x: x through a link to the root
+        # falsy-but-valid objects, a file whose name is the stdin marker, a FIFO, a long chain of nested directories
+        fx["emptyfile"] = top(b"e0")
+        open(fx["emptyfile"], "wb").close()
+        fx["emptydir"] = top(b"e1")
+        os.mkdir(fx["emptydir"])
+        fx["dashfile"] = os.path.join(root, b"-")
+        with open(fx["dashfile"], "wb") as f:
+            f.write(b"the file named - " + _rdata(rng))
+        fx["fifo"] = top(b"ff")
+        os.mkfifo(fx["fifo"])
+        os.mkfifo(os.path.join(fx["dir2"], b"fifo" + _rname(rng, False)))   # ... and one inside a tree
+        deep = os.path.join(fx["dir2"], b"nest")
+        for _ in range(60):
+            os.mkdir(deep)
+            deep = os.path.join(deep, b"n")
+        with open(deep, "wb") as f:
+            f.write(_rdata(rng))
         # link chains (intermediate links are hidden objects k*)
         def ln(target, name, absolute):
             os.symlink(target if absolute else os.path.relpath(target, os.path.dirname(name)), name)
@@ -529,6 +633,15 @@ def get_fixture(fxspec):
 
 
 EXCLUDE = ["sub*"]
+# what `exclude = yes` means in the one-argument table, per fixture set: several patterns, duplicates, patterns that
+# match files, nothing or everything-below-sub, the empty pattern, a pattern that is no valid glob class, non-ASCII
+EXCLUDE_SETS = [["sub*"], ["sub*", "sub*"], ["nomatch*", "sub*", "*.c"], ["", "sub*"], ["[", "sub*", "\u00e9*"],
+                ["sub*", "same*", "README"], ["only_*", "sub*", "*/deep*"],
+                ["sub*", "*\udcff*", "*\udce9t\udce9*"]]          # patterns that are not valid UTF-8
+
+
+def fx_exclude(fx):
+    return EXCLUDE_SETS[fx["spec"].get("xset", 0) % len(EXCLUDE_SETS)]
 
 
 def _dir_id(path, excluded, patterns=None):
@@ -537,14 +650,30 @@ def _dir_id(path, excluded, patterns=None):
     from swh.model import from_disk
     if excluded:
         pats = EXCLUDE if patterns is None else patterns
-        flt = from_disk.ignore_directories_patterns(path, [p.encode() for p in pats])
+        flt = from_disk.ignore_directories_patterns(path, [os.fsencode(p) for p in pats])
         return from_disk.Directory.from_disk(path=path, path_filter=flt)
     return from_disk.Directory.from_disk(path=path)
 
 
-def _snapshot_id(repo):
-    """the snapshot of a git repository, built from git's own listing of the references (not through dulwich)"""
+def _snapshot_id(repo, dangling=()):
+    """the snapshot of a git repository, built from git's own listing of the references (not through dulwich);
+    dangling: references to objects that are not in the repository (git refuses to list a repository that has them:
+    they are set aside while git lists the others) - branches without a target"""
     from swh.model import model
+    gitdir = repo if not os.path.isdir(os.path.join(repo, b".git")) else os.path.join(repo, b".git")
+    moved = []
+    try:
+        for n, ref in enumerate(dangling):
+            os.rename(os.path.join(gitdir, ref), os.path.join(gitdir, b"aside-%d" % n))
+            moved.append((n, ref))
+        sid = _snapshot_id_listed(repo, model, dangling)
+    finally:
+        for n, ref in moved:
+            os.rename(os.path.join(gitdir, b"aside-%d" % n), os.path.join(gitdir, ref))
+    return sid
+
+
+def _snapshot_id_listed(repo, model, dangling):
     tt = model.SnapshotTargetType if hasattr(model, "SnapshotTargetType") else model.TargetType
     kinds = {"commit": tt.REVISION, "tag": tt.RELEASE, "tree": tt.DIRECTORY, "blob": tt.CONTENT}
     branches = {}
@@ -555,8 +684,14 @@ def _snapshot_id(repo):
             branches[ref] = model.SnapshotBranch(target=sym, target_type=tt.ALIAS)
         else:
             branches[ref] = model.SnapshotBranch(target=bytes.fromhex(oid.decode()), target_type=kinds[typ.decode()])
-    head = _git(os.fsdecode(repo), "symbolic-ref", "HEAD").strip()
-    branches[b"HEAD"] = model.SnapshotBranch(target=head, target_type=tt.ALIAS)
+    try:
+        head = _git(os.fsdecode(repo), "symbolic-ref", "-q", "HEAD").strip()
+        branches[b"HEAD"] = model.SnapshotBranch(target=head, target_type=tt.ALIAS)
+    except RuntimeError:          # detached HEAD: a direct reference to a commit
+        oid = _git(os.fsdecode(repo), "rev-parse", "HEAD").strip().decode()
+        branches[b"HEAD"] = model.SnapshotBranch(target=bytes.fromhex(oid), target_type=tt.REVISION)
+    for ref in dangling:
+        branches[ref] = None
     return model.Snapshot(branches=branches).swhid()
 
 
@@ -573,31 +708,39 @@ def expected_ids(fx):
     ids["linktext:linkdir"] = str(C.from_bytes(mode=0o120000, data=os.readlink(fx["linkdir"])).swhid())
     ids["empty"] = str(C.from_bytes(mode=0o100644, data=b"").swhid())
     ids["stdin"] = str(C.from_bytes(mode=0o100644, data=fx["stdin"]).swhid())
-    for k, p in (("dir", fx["dir"]), ("linkdir", os.path.realpath(fx["linkdir"])), ("gitrepo", fx["gitrepo"])):
+    for k, p in (("dir", fx["dir"]), ("linkdir", os.path.realpath(fx["linkdir"])), ("gitrepo", fx["gitrepo"]),
+                 ("badrefs", fx["badrefs"])):
         for x in (0, 1):
-            ids["dir:%s:%d" % (k, x)] = str(_dir_id(p, x).swhid())
-    for k in ("file", "dir", "linkfile", "linkdir", "gitrepo"):
+            ids["dir:%s:%d" % (k, x)] = str(_dir_id(p, x, fx_exclude(fx)).swhid())
+    for k in ("file", "dir", "linkfile", "linkdir", "gitrepo", "badrefs"):
         # out of scope (-t origin <path>); a path that is not valid UTF-8 is not a valid origin URL
         ids["origin:" + k] = origin_id(os.fsdecode(fx[k]))
     ids["origin:url"] = origin_id(fx["url"])
     # link chains: the reference is the CANONICAL object (os.path.realpath) when the link is followed, the FIRST link's
     # own text when it is not
     for o in CHAIN_OBJS:
+        if OBJ_KIND[o] == "fifo" or o not in fx:
+            continue
         if os.path.islink(fx[o]):
             ids["linktext:" + o] = str(C.from_bytes(mode=0o120000, data=os.readlink(fx[o])).swhid())
         real = os.path.realpath(fx[o])
         if OBJ_KIND[o] in ("linkfile", "file"):
             ids["content:" + o] = str(C.from_file(path=real).swhid())
-        elif OBJ_KIND[o] in ("linkdir", "dir"):
+        elif OBJ_KIND[o] in ("linkdir", "dir", "gitrepo"):
             for x in (0, 1):
-                ids["dir:%s:%d" % (o, x)] = str(_dir_id(real, x).swhid())
+                ids["dir:%s:%d" % (o, x)] = str(_dir_id(real, x, fx_exclude(fx)).swhid())
     assert ids["content:chain2f"] == ids["content:chain3f"] == ids["pathcontent"] != ids["content:chainx"]
+    assert ids["content:emptyfile"] == ids["empty"] and ids["dir:emptydir:0"] == ids["dir:emptydir:1"]
     assert os.path.realpath(fx["chainx"]) == fx["chainx_target"]
-    ids["snapshot"] = str(_snapshot_id(fx["gitrepo"]))
+    ids["snapshot"] = str(_snapshot_id(fx["gitrepo"], fx.get("dangling_refs", ())))
     # the fixture must be generic: distinct designated objects, distinct identifiers; the exclusion removes something
-    generic = [ids["pathcontent"], ids["linktext:linkfile"], ids["linktext:linkdir"], ids["empty"], ids["stdin"],
+    generic = [ids["linktext:linkfile"], ids["linktext:linkdir"], ids["empty"],
                ids["dir:dir:0"], ids["dir:dir:1"], ids["dir:linkdir:0"], ids["dir:linkdir:1"], ids["dir:gitrepo:0"],
-               ids["dir:gitrepo:1"], ids["origin:url"], ids["snapshot"]]
+               ids["origin:url"], ids["snapshot"], ids["dir:badrefs:0"], ids["dir:badrefs:1"]]
+    if fx["spec"].get("gitstate") != "bare":        # a bare repository has no sub* directory to exclude
+        generic.append(ids["dir:gitrepo:1"])
+    if not fx["spec"].get("empties"):               # empties: the file and standard input are the empty content
+        generic += [ids["pathcontent"], ids["stdin"]]
     assert len(set(generic)) == len(generic), "fixture is not generic"
     return ids
 
@@ -605,7 +748,7 @@ def expected_ids(fx):
 def obj_id(fx, kind, obj, excluded, argstr=None):
     """identifier of designation `obj` (as named by the driver) for the argument of kind `kind`"""
     ids = fx["ids"]
-    if obj in ("nothing", "refused"):
+    if obj in ("nothing", "refused", "unreadable"):
         return None
     if obj == "origin" and (argstr is not None or kind in STRING_KINDS):
         return origin_id(kind_arg(fx, kind, argstr))
@@ -630,13 +773,20 @@ def canonical_tree(fx, path, excluded, patterns=None):
     """The library's tree of the CANONICAL object: Directory.from_disk on os.path.realpath(path) (never on the
     spelling the command was given).  Returns (set of node ids, {(id, path relative to the top)}, canonical top)."""
     top = os.path.realpath(path)
+    if patterns is None and excluded:
+        patterns = fx_exclude(fx)
     key = (top, bool(excluded), tuple(patterns) if patterns is not None else None)
     if key not in fx["_trees"]:
         d = _dir_id(top, excluded, patterns)
         rel = set()
         for node in d.iter_tree(dedup=False):
-            q = node.data["path"]
-            rel.add((str(node.swhid()), b"" if q == top else q[len(top) + 1:]))
+            q = node.data.get("path")
+            if q is None:
+                # a special file (FIFO, socket, device): the library's node is the empty content WITHOUT a path, and the
+                # command prints an empty name for it (observed; reported): the name of such a line is not checked
+                rel.add((str(node.swhid()), None))
+            else:
+                rel.add((str(node.swhid()), b"" if q == top else q[len(top) + 1:]))
         dedup = [str(n.swhid()) for n in d.iter_tree()]
         assert len(dedup) == len(set(dedup)) and set(dedup) == {i for i, _ in rel}
         fx["_trees"][key] = (set(dedup), rel, top, str(d.swhid()))
@@ -660,13 +810,38 @@ def canon_rel(p, top, base):
 
 
 # ------------------------------------------------------------------ spellings of a path argument
-TRAILING = ("slash", "dslash", "slashdot")
-TOP_ONLY = ("updir", "uplink")            # need the object to sit directly in the fixture root
-SPELLINGS = ["plain", "dotslash", "midslash", "updir", "uplink", "slash", "dslash", "slashdot", "dotdotself"]
-PATH_KINDS = ("file", "dir", "linkfile", "linkdir", "gitrepo")
+TRAILING = ("slash", "dslash", "slashdot", "cwddot", "cwddotslash", "cwdup")   # the object is looked INTO
+TOP_ONLY = ("updir", "uplink", "vialink")  # need the object to sit directly in the fixture root
+CWD_SPELLINGS = ("cwddot", "cwddotslash", "cwdup")      # '.', './', '..' with the working directory inside the object
+SPELLINGS = ["plain", "dotslash", "midslash", "updir", "uplink", "slash", "dslash", "slashdot", "dotdotself", "vialink",
+             "lead2", "cwddot", "cwddotslash", "cwdup"]
+# a sub-directory of the directory objects that have a known one (for '..')
+SUBDIR_OF = {"dir": lambda fx: os.path.basename(fx["dir_sub"]), "dir2": lambda fx: os.path.basename(fx["dir2_sub"]),
+             "gitrepo": lambda fx: b"subdir", "badrefs": lambda fx: b"subdir"}
+
+
+def spelling_applies(obj, spell, fxspec):
+    kind = OBJ_KIND.get(obj, obj)
+    if obj == "gitdir" and fxspec.get("gitstate") == "bare":
+        return False
+    if spell in TOP_ONLY and obj in NOT_IN_ROOT:
+        return False
+    if spell in CWD_SPELLINGS:
+        if kind not in ("dir", "linkdir", "gitrepo", "badrefs"):
+            return False
+        if spell == "cwdup" and (obj not in SUBDIR_OF or (obj == "gitrepo" and fxspec.get("gitstate") in ("bare",))):
+            return False
+    return True
+PATH_KINDS = ("file", "dir", "linkfile", "linkdir", "gitrepo", "badrefs")
 # fixture objects that are paths, and the kind of argument each is: link CHAINS are objects, not kinds - what a chain
 # finally designates decides (a link -> link -> file is a link to a file whose target is the file at the end)
 OBJ_KIND = {"file": "file", "dir": "dir", "linkfile": "linkfile", "linkdir": "linkdir", "gitrepo": "gitrepo",
+            "badrefs": "badrefs",     # a git repository whose references dulwich cannot read
+            "emptyfile": "file",      # a regular file of 0 bytes
+            "emptydir": "dir",        # a directory without entries
+            "dashfile": "file",       # a regular file named '-' (the argument '-' is still standard input)
+            "fifo": "fifo",           # a named pipe: exists, but is neither a file nor a directory
+            "gitdir": "gitrepo",      # <repository>/.git given as the argument (absent for a bare repository)
             "chain2f": "linkfile",    # link -> link -> file
             "chain3f": "linkfile",    # link -> link -> link -> file, absolute and relative targets mixed
             "chainx": "linkfile",     # link -> cdir/mid, mid -> "inner" RELATIVE TO cdir (root/inner is a decoy)
@@ -677,7 +852,7 @@ OBJ_KIND = {"file": "file", "dir": "dir", "linkfile": "linkfile", "linkdir": "li
             "loop1": "loop",          # link -> itself
             "loop2": "loop"}          # link -> link -> the first link
 CHAIN_OBJS = [o for o in OBJ_KIND if o not in PATH_KINDS]
-NOT_IN_ROOT = ("midfile", "middir", "dir_sub", "dir_other")
+NOT_IN_ROOT = ("midfile", "middir", "dir_sub", "dir_other", "gitdir")
 
 
 def spelled(fx, path, spell, rel):
@@ -708,9 +883,26 @@ def spelled(fx, path, spell, rel):
         r = plain + b"/."
     elif spell == "dotdotself":
         r = plain + b"/../" + b
+    elif spell == "vialink":          # through hop/up, a link to the fixture root (no '..' in the spelling)
+        r = j(os.path.basename(fx["hop"]) + b"/up/" + b)
+    elif spell == "lead2":            # two leading slashes (absolute only)
+        r = b"/" + path
+    elif spell in CWD_SPELLINGS:      # the working directory IS the object (or a sub-directory of it)
+        r = {"cwddot": b".", "cwddotslash": b"./", "cwdup": b".."}[spell]
     else:
         raise KeyError(spell)
+    if r == b"-":
+        r = b"./-"                    # '-' alone is standard input, whatever files exist
     return os.fsdecode(r)
+
+
+def spell_cwd(fx, obj, spell, rel):
+    """the working directory a spelling needs (None: the harness's own)"""
+    if spell == "cwdup":
+        return os.fsdecode(os.path.join(fx[obj], SUBDIR_OF[obj](fx)))
+    if spell in CWD_SPELLINGS:
+        return os.fsdecode(fx[obj])
+    return os.fsdecode(fx["root"]) if rel else None
 
 
 def eff_kind(obj, spell, deref=1):
@@ -720,6 +912,8 @@ def eff_kind(obj, spell, deref=1):
     nowhere (dangling chain, cycle) designates nothing when it is to be followed, and itself - a content made of its
     target path, like any link - when it is not."""
     kind = OBJ_KIND.get(obj, obj)
+    if kind == "fifo":
+        return "missing"          # "cannot detect object type": only --type auto is in scope
     if kind in ("dangle", "loop"):
         if spell in TRAILING or spell == "dotdotself":
             return "missing"
@@ -759,7 +953,7 @@ def cli_args(fx, cfg, row, argstr=None, idk=None):
     if r:
         args.append("--recursive" if fx["spec"]["seed"] % 2 else "-r")
     if x:
-        for p in EXCLUDE:
+        for p in fx_exclude(fx):
             args += ["--exclude", p]
     if v != "none":
         dk, dx = row["des"].split(",")
@@ -773,6 +967,53 @@ def cli_args(fx, cfg, row, argstr=None, idk=None):
     if arg.startswith("-") and arg != "-":
         args.append("--")                 # an argument that looks like an option
     return args + [arg], arg
+
+
+def apply_forms(args, nobj, n):
+    """The same invocation, written differently (click's documented forms; the meaning must not change): short and
+    long names, --opt=value and -oVALUE, a flag repeated with the last occurrence winning, an earlier -t overridden by
+    the real one, the options AFTER the objects.  args = options + [--] + the nobj objects; n seeds the choices."""
+    r = _random.Random(n)
+    opts, objs = list(args[:len(args) - nobj]), list(args[len(args) - nobj:])
+    sep = []
+    if opts and opts[-1] == "--":
+        opts, sep = opts[:-1], ["--"]
+    groups, i = [], 0                  # one group per option (with its value)
+    short = {"--type": "-t", "--exclude": "-x", "--verify": "-v"}
+    long_ = {v: k for k, v in short.items()}
+    while i < len(opts):
+        o = opts[i]
+        if o in short or o in long_:
+            name, val = long_.get(o, o), opts[i + 1]
+            i += 2
+            form = r.randrange(4)
+            if name == "--type" and r.random() < 0.3:
+                groups.append(["-t", r.choice(TYPES)])             # overridden by the one that follows
+            if form == 0:
+                groups.append([name, val])
+            elif form == 1:
+                groups.append([short[name], val])
+            elif form == 2:
+                groups.append([name + "=" + val])
+            else:
+                groups.append([short[name] + val] if val and not val.startswith("-") else [short[name], val])
+        else:
+            i += 1
+            if o in ("--recursive", "-r"):
+                groups.append([r.choice(["--recursive", "-r"])])
+                if r.random() < 0.2:
+                    groups.append(["-r"])                          # a flag given twice
+            elif o in ("--no-dereference", "--no-filename", "--dereference", "--filename"):
+                opposite = o.replace("--no-", "--") if o.startswith("--no-") else "--no-" + o[2:]
+                if r.random() < 0.4:
+                    groups.append([opposite])                      # the last occurrence wins
+                groups.append([o])
+            else:
+                groups.append([o])
+    if not sep and r.random() < 0.4 and not any(x.startswith("-") and x != "-" for x in objs):
+        k = r.randrange(len(groups) + 1)                           # (some of) the options after the objects
+        return [x for g in groups[:k] for x in g] + objs + [x for g in groups[k:] for x in g]
+    return [x for g in groups for x in g] + sep + objs
 
 
 def non_matching(good, n):
@@ -855,12 +1096,124 @@ def run_subprocess(args, stdin, cwd):
     return canon_run(p.returncode, p.stdout.decode("utf-8", "surrogateescape"), exc)
 
 
+RAW_USAGE = [["-t", "Content", "<file>"], ["-t", "", "<file>"], ["-t", "cnt", "<file>"], ["--type", "all", "<dir>"],
+             ["--recursive=1", "<dir>"], ["--foo", "<file>"], ["-z", "<file>"], [], ["-t", "content"], ["--no-filename"],
+             ["-v", "<ID>", "<file>"], ["-v", " <id>", "<file>"], ["-v", "<id>;origin=https://x", "<file>"],
+             ["-v", "<id2>", "<file>"], ["-v", "", "<file>"], ["-v", "swh:1:cnt:xyz", "<file>"], ["-v", "<idshort>", "<file>"],
+             ["-v", "<id>\n", "<file>"], ["-v", "<ori>", "<file>"], ["-v", "<id>", "<file>", "<dir>"], ["-v"],
+             ["--verify", "<id>", "-r", "<dir>"], ["-x"], ["--exclude"]]
+RAW_SAME = [(["--type=content", "<file>"], ["-t", "content", "<file>"]), (["-tcontent", "<file>"], ["-t", "content", "<file>"]),
+            (["<file>", "--no-filename"], ["--no-filename", "<file>"]), (["--no-filename", "--filename", "<file>"], ["<file>"]),
+            (["-t", "directory", "-t", "content", "<file>"], ["-t", "content", "<file>"]),
+            (["-rx", "sub*", "<dir>"], ["-r", "-x", "sub*", "<dir>"]), (["-x", "sub*", "-x", "sub*", "<dir>"], ["-x", "sub*", "<dir>"]),
+            (["-r", "-r", "<dir>"], ["--recursive", "<dir>"]), (["<file>", "-t", "content", "<dir>"], ["-t", "content", "<file>", "<dir>"]),
+            (["--", "<file>"], ["<file>"]), (["-xsub*", "<dir>"], ["--exclude=sub*", "<dir>"])]
+RAW_HELP = [["-h"], ["--help"], ["-h", "<file>"], ["<file>", "--help"]]
+
+
+def impl_raw(case):
+    """invocations outside the table: wrong option values (a usage error, never a traceback), the help, and pairs of
+    spellings of one invocation that must give the same result"""
+    fx = get_fixture(case["fx"])
+    good = fx["ids"]["pathcontent"]
+    sub = {"<file>": os.fsdecode(fx["file"]), "<dir>": os.fsdecode(fx["dir"]), "<id>": good, "<ID>": good.upper(),
+           "<id2>": good.replace("swh:1:", "swh:2:"), "<idshort>": good[:-1], "<ori>": fx["ids"]["origin:url"]}
+
+    def inst(args):
+        out = []
+        for a in args:
+            for k, v in sub.items():
+                a = a.replace(k, v)
+            out.append(a)
+        return out
+    raw = case["raw"]
+    run = run_inprocess(inst(raw["args"]), None)
+    res = {"run": run, "args": raw["args"], "raw_diff": None}
+    if run.get("exc"):
+        res["raw_diff"] = "unhandled exception %s" % run["exc"]
+    elif raw["expect"] == "usage":
+        if run["exit"] != 2 or run["ordered"]:
+            res["raw_diff"] = "exit code %s with %d identifier lines, expected a usage error (exit 2)" % (run["exit"], len(run["ordered"]))
+    elif raw["expect"] == "help":
+        if run["exit"] != 0 or run["ordered"]:
+            res["raw_diff"] = "exit code %s, expected the help text and exit 0" % run["exit"]
+    else:
+        ref = run_inprocess(inst(raw["expect"]), None)
+        if (run["exit"], run["lines"], run["other_lines"]) != (ref["exit"], ref["lines"], ref["other_lines"]) or ref.get("exc"):
+            res["raw_diff"] = "differs from `%s`: exit %s / %s, lines %r / %r" % (
+                " ".join(raw["expect"]), run["exit"], ref["exit"], run["lines"][:2], ref["lines"][:2])
+    return res
+
+
+def impl_hist(case):
+    """two invocations in ONE process with the object changed in between (or left alone): the second one must print
+    the identifier the library computes for the object as it is NOW - nothing may be remembered between invocations"""
+    from swh.model import from_disk
+    fx = get_fixture(case["fx"])
+    h = case["hist"]
+    scratch = tempfile.mkdtemp(prefix=b"hist-", dir=fx["root"])
+    try:
+        kind, t, d, f = h["kind"], h["type"], h["deref"], h["fname"]
+        target_f = os.path.join(scratch, b"target")
+        with open(target_f, "wb") as fh:
+            fh.write(b"first version\n")
+        target_d = os.path.join(scratch, b"tree")
+        os.makedirs(os.path.join(target_d, b"sub"))
+        with open(os.path.join(target_d, b"sub", b"a"), "wb") as fh:
+            fh.write(b"a\n")
+        arg = {"file": target_f, "dir": target_d, "linkfile": os.path.join(scratch, b"lf"),
+               "linkdir": os.path.join(scratch, b"ld")}[kind]
+        if kind == "linkfile":
+            os.symlink(b"target", arg)
+        if kind == "linkdir":
+            os.symlink(b"tree", arg)
+
+        def lib_id():
+            if kind in ("linkfile", "linkdir") and not d:
+                return str(from_disk.Content.from_bytes(mode=0o120000, data=os.readlink(arg)).swhid())
+            real = os.path.realpath(arg)
+            if kind in ("file", "linkfile"):
+                return str(from_disk.Content.from_file(path=real).swhid())
+            return str(from_disk.Directory.from_disk(path=real).swhid())
+        args = (["-t", t] if t != "auto" else []) + ([] if d else ["--no-dereference"]) + ([] if f else ["--no-filename"])
+        args.append(os.fsdecode(arg))
+        res = {"args": args[:-1] + ["<%s>" % kind], "hist_diff": None, "steps": []}
+        for step in ("before", h["change"]):
+            if step == "rewrite":
+                if kind in ("linkfile", "linkdir") and not d:
+                    os.unlink(arg)
+                    os.symlink(b"elsewhere", arg)                       # the link now says something else
+                elif kind in ("file", "linkfile"):
+                    with open(target_f, "wb") as fh:                   # same size, same name, other bytes
+                        fh.write(b"other version\n")
+                else:
+                    with open(os.path.join(target_d, b"sub", b"a"), "wb") as fh:
+                        fh.write(b"b\n")
+            want = lib_id()
+            run = run_inprocess(args, None)
+            res["steps"].append({"step": step, "exit": run["exit"], "lines": run["ordered"], "want": want})
+            line = want + "\t" + os.fsdecode(arg) if f else want
+            if run.get("exc") or run["exit"] != 0 or run["ordered"] != [line]:
+                res["hist_diff"] = "%s: printed %r (exit %s %s), the library computes %r" % (
+                    step, run["ordered"], run["exit"], run.get("exc"), line)
+                break
+        if not res["hist_diff"] and h["change"] == "rewrite" and res["steps"][0]["want"] == res["steps"][1]["want"]:
+            res["hist_diff"] = "harness: the change did not change the identifier"
+        return res
+    finally:
+        shutil.rmtree(scratch, ignore_errors=True)
+
+
 def impl(case):
     """run the command; everything that needs the fixture on disk is evaluated here, while it exists: the observed
     run and its difference with the observable of the model's / the specification's outcome (driver tokens)"""
     try:
         if "multi" in case:
             return impl_many(case)
+        if "raw" in case:
+            return impl_raw(case)
+        if "hist" in case:
+            return impl_hist(case)
         fx = get_fixture(case["fx"])
         cfg = case["cfg"]
         row = table_row(cfg)
@@ -873,11 +1226,15 @@ def impl(case):
             idk = sp["obj"]
             assert cfg[0] == eff_kind(idk, sp["spell"], cfg[2]), "case kind is not the effective kind of the spelling"
             argstr = spelled(fx, fx[idk], sp["spell"], sp.get("rel"))
-            cwd = os.fsdecode(fx["root"]) if sp.get("rel") else None
+            cwd = spell_cwd(fx, idk, sp["spell"], sp.get("rel"))
         args, arg = cli_args(fx, cfg, row, argstr, idk)
         stdin = fx["stdin"] if cfg[0] == "stdin" else None
+        if cfg[0] == "stdin":
+            cwd = os.fsdecode(fx["root"])      # where a FILE named '-' exists: the argument '-' is still standard input
+        if case.get("oform"):
+            args = apply_forms(args, 1, case["oform"])
         if case.get("sub"):
-            run = run_subprocess(args, stdin, os.fsdecode(fx["root"]))
+            run = run_subprocess(args, stdin, cwd or os.fsdecode(fx["root"]))
         else:
             run = run_inprocess(args, stdin, cwd)
         res = {"run": run, "args": [a if a != arg else "<" + cfg[0] + ">" for a in args[:-1]] + ["<" + cfg[0] + ">"],
@@ -886,10 +1243,12 @@ def impl(case):
             res["argument"] = arg if len(arg) < 200 else arg[:80] + "...(%d characters)" % len(arg)
         old = os.getcwd()
         try:
-            os.chdir(fx["root"])          # relative spellings are looked at from the directory the command ran in
-            res["diff_model"] = diff(run, expected(fx, cfg, row["model"], argstr, idk))
+            base = os.fsencode(cwd) if cwd else fx["root"]
+            if cwd or case.get("sub"):
+                os.chdir(base)            # relative spellings are looked at from the directory the command ran in
+            res["diff_model"] = diff(run, expected(fx, cfg, row["model"], argstr, idk, base))
             res["diff_spec"] = (res["diff_model"] if row["spec"] == row["model"]
-                                else diff(run, expected(fx, cfg, row["spec"], argstr, idk)))
+                                else diff(run, expected(fx, cfg, row["spec"], argstr, idk, base)))
         finally:
             os.chdir(old)
         return res
@@ -907,7 +1266,7 @@ def canon_expected(texts):
     return sorted(ids), ids, len(pieces) - len(ids)
 
 
-def expected(fx, cfg, outcome, argstr=None, idk=None):
+def expected(fx, cfg, outcome, argstr=None, idk=None, base=None):
     """canonical observable that the outcome (a driver token such as print,dirpath,1,1,0) stands for; idk: the object
     of the fixture a spelled path designates (its identifiers are those of the canonical object)"""
     k = cfg[0]
@@ -928,7 +1287,7 @@ def expected(fx, cfg, outcome, argstr=None, idk=None):
         # out of scope: which OSError/ValueError the library call raises for a string that is no path depends on the
         # string (no such file, name too long, embedded NUL): ask the library
         return {"exit": 1, "lines": [], "exc": library_error(cfg[1], arg, bool(cfg[6])) or parts[1]}
-    if parts[0] == "exit0":
+    if parts[0] in ("exit0", "silent"):
         return {"exit": 0, "lines": []}
     if parts[0] == "exit1":
         return {"exit": 1, "lines": []}
@@ -941,7 +1300,7 @@ def expected(fx, cfg, outcome, argstr=None, idk=None):
         lines, _, other = canon_expected([i + "\t" + arg if shown else i])
         return {"exit": 0, "lines": lines, "other_lines": other}
     ids, rel, top, _ = canonical_tree(fx, fx[idk or k], excluded)
-    return {"exit": 0, "listing": True, "ids": ids, "rel": rel, "top": top, "base": fx["root"], "shown": shown,
+    return {"exit": 0, "listing": True, "ids": ids, "rel": rel, "top": top, "base": base or fx["root"], "shown": shown,
             "other_lines": 0}
 
 
@@ -968,6 +1327,8 @@ def diff(obs, exp):
                 len(gids), len(exp["ids"]), sorted(exp["ids"] - set(gids))[:2], sorted(set(gids) - exp["ids"])[:2])
         if exp["shown"]:
             for i, q in pairs:
+                if q == "" and (i, None) in exp["rel"]:
+                    continue              # a node the library gives no path (special file)
                 r = canon_rel(os.fsencode(q), exp["top"], exp["base"]) if q is not None else None
                 if r is None or (i, r) not in exp["rel"]:
                     return "recursive listing: line %r does not name a node of the designated directory with that identifier" % ((i, q),)
@@ -992,16 +1353,26 @@ REF_KIND = {"file": "file", "dir": "dir", "dir2": "dir", "lt": "dir", "dir_sub":
             "gitrepo": "gitrepo", "missing": "missing", "missing2": "missing", "badurl": "badurl", "badurl2": "badurl",
             "refusedurl": "refusedurl", "refusedurl2": "refusedurl",
             "chain2f": "linkfile", "chain3f": "linkfile", "chainx": "linkfile", "chain2d": "linkdir", "midfile": "file",
-            "middir": "dir", "dangle": "dangle", "loop1": "loop"}
+            "middir": "dir", "dangle": "dangle", "loop1": "loop", "badrefs": "badrefs"}
 STRING_REFS = [r for r, k in REF_KIND.items() if k in STRING_KINDS]
 UNIDENTIFIABLE = ["missing", "missing2", "badurl", "badurl2", "refusedurl", "refusedurl2"]
-DIR_REFS = ["dir", "dir2", "lt", "dir_sub", "dir_other", "gitrepo", "linkdir", "chain2d", "middir"]
+DIR_REFS = ["dir", "dir2", "lt", "dir_sub", "dir_other", "gitrepo", "linkdir", "chain2d", "middir", "badrefs"]
 # patterns that match a directory of that tree (root-relative, fnmatch) and - mostly - nothing in the other trees
 SPECIFIC = {"dir": ["only_A*", "sub*/only_A*"], "dir2": ["only_C*", "*/only_C*"], "lt": ["only_B*", "sub*/only_B*"],
             "linkdir": ["only_B*", "*/only_B*"], "dir_sub": ["deep*", "only_A*"], "dir_other": ["nomatch*"],
             "gitrepo": ["only_G*", "subdir", ".git", "*.git"], "chain2d": ["only_C*", "*/only_C*"],
-            "middir": ["deep*", "only_C*"]}
-GENERIC = ["sub*", "*/deep*", "empty*", "copy*", "only_*", "nomatch*", "*/only_*"]
+            "middir": ["deep*", "only_C*"], "badrefs": ["subdir", ".git"]}
+GENERIC = ["sub*", "*/deep*", "empty*", "copy*", "only_*", "nomatch*", "*/only_*",
+           # patterns that match FILES (the library's filter sees them too), everything, nothing, not a glob class,
+           # non-ASCII, and absolute patterns (resolved when the case runs: @abs:<reference>)
+           "same*", "x*", "*.c", "README", "*", "", "[", "\u00e9*", "sub*/same*", "@abs:dir_sub", "@abs:dir_other",
+           "../*", "nest", "nest/n/n", "fifo*", "*\udcff*", "only_*\udce9*", "*\udcc3(*"]
+
+
+def resolve_patterns(fx, patterns):
+    return [os.fsdecode(ref_path(fx, q[5:])) if q.startswith("@abs:") else q for q in patterns]
+
+
 _MANY = {}
 
 
@@ -1101,7 +1472,7 @@ def many_args(fx, m):
             row = table_row([m_kind(m, 0), m["type"], m["deref"], m["fname"], m["recur"], m["ver"],
                              1 if m["patterns"] else 0])
             dk, dx = row["des"].split(",")
-            if dk not in ("nothing", "refused"):
+            if dk not in ("nothing", "refused", "unreadable"):
                 good = ref_obj_id(fx, m["args"][0], dk, dx == "1", m["patterns"], m_arg(fx, m, 0)) or good
         args += ["--verify", good if m["ver"] == "match" else non_matching(good, len(m["args"]))]
     objs = [m_arg(fx, m, i) for i in range(len(m["args"]))]
@@ -1166,11 +1537,14 @@ def diff_many(obs, exp):
 
 def impl_many(case):
     fx = get_fixture(case["fx"])
-    m = case["multi"]
+    m = dict(case["multi"])
+    m["patterns"] = resolve_patterns(fx, m["patterns"])
     row = many_row(m)
     args, opts = many_args(fx, m)
     stdin = fx["stdin"] if "stdin" in m["args"] else None
-    cwd = os.fsdecode(fx["root"]) if m.get("rel") else None
+    cwd = os.fsdecode(fx["root"]) if m.get("rel") or "stdin" in m["args"] else None
+    if case.get("oform") and m["args"]:
+        args = apply_forms(args, len(m["args"]), case["oform"])
     if case.get("sub"):
         run = run_subprocess(args, stdin, os.fsdecode(fx["root"]))
     else:
@@ -1231,7 +1605,7 @@ def _pick_patterns(rng, refs, n):
             pats.append(rng.choice(GENERIC))
     out = []
     for q in pats:
-        if q not in out:
+        if q not in out or rng.random() < 0.3:      # now and then the same pattern twice
             out.append(q)
     return out
 
@@ -1265,7 +1639,7 @@ def gen_many(rng, fx, n):
             t = rng.choice(["content", "content", "origin", "snapshot", "directory"])
             pool = {"content": ["file", "linkfile", "stdin", "file", "linkfile", "chain2f", "chain3f", "chainx", "midfile"],
                     "origin": ["url", "url2", "url3", "url", "refusedurl"],
-                    "snapshot": ["gitrepo"], "directory": [r for r in DIR_REFS if r != "linkdir"] + ["linkdir"]}[t]
+                    "snapshot": ["gitrepo", "gitrepo", "badrefs"], "directory": [r for r in DIR_REFS if r != "linkdir"] + ["linkdir"]}[t]
             refs = [rng.choice(pool) for _ in range(k)]
             m["type"] = t
             m["deref"] = 1 if t == "directory" else rng.choice([1, 0])
@@ -1302,12 +1676,18 @@ def gen_many(rng, fx, n):
                 if r in STRING_REFS or r == "stdin" or rng.random() < 0.3:
                     spells.append("plain")
                     continue
-                pool = [q for q in SPELLINGS if q != "plain" and (q not in TOP_ONLY or r not in NOT_IN_ROOT)]
+                pool = [q for q in SPELLINGS if q != "plain" and q not in CWD_SPELLINGS
+                        and (q not in TOP_ONLY or r not in NOT_IN_ROOT)]
                 if REF_KIND[r] in ("file", "linkfile", "dangle", "loop"):
                     pool = [q for q in pool if eff_kind(REF_KIND[r], q, m["deref"]) != "missing" or rng.random() < 0.1]
                 spells.append(rng.choice(pool + ["uplink"] * (0 if r in NOT_IN_ROOT else 3)) if pool else "plain")
             m["spells"] = spells
             m["rel"] = rng.choice([0, 1])
+            if "uplink" in spells or "vialink" in spells:
+                # reported, not generated: an ABSOLUTE pattern is made relative to the LEXICALLY normalised root
+                # (from_disk.extract_regex_objs: os.path.abspath/relpath), so with a root spelled through a link
+                # (link/../x, link-to-parent/x) a pattern given by its canonical path never matches
+                m["patterns"] = [q for q in m["patterns"] if not q.startswith("@abs:")]
         cases.append({"fx": fx, "multi": m})
     return cases
 
@@ -1322,6 +1702,16 @@ def gen(rng, tier):
         fx["url_noauth"] = s % 2         # a URL without / with an empty authority (file:///x, lp:x, mailto:x)
         fx["symrefs"] = (s + 1) % 2      # the git repository has symbolic references besides HEAD
         fx["oddrefs"] = s % 2            # ... and references to a tree / a blob
+        # the state of the git repository and what makes the other repository's references unreadable
+        fx["gitstate"] = rng.choice(GIT_STATES) if tier == "quick" else GIT_STATES[s % len(GIT_STATES)]
+        fx["badrefs"] = "empty" if s % 3 != 2 else rng.choice(["garbage", "truncated"])
+        fx["xset"] = rng.randrange(len(EXCLUDE_SETS))       # which patterns `exclude = yes` stands for in the table
+        if s % 2 == 1:
+            fx["dashnames"] = 1          # the file argument's name starts with '-'
+        if s % 4 == 1 or (tier == "thorough" and s % 4 == 3):
+            fx["empties"] = 1            # the file argument and standard input are EMPTY
+        elif s % 4 == 2:
+            fx["bigstdin"] = 1           # standard input of several read blocks
         if s % 2 == 1:
             fx["nonutf8"] = 1            # names inside the trees and link texts that are not valid UTF-8
             fx["nonutf8_arg"] = 1        # ... and the names of the arguments themselves
@@ -1331,13 +1721,25 @@ def gen(rng, tier):
         for c in cfgs:
             if tier == "quick" and s > 0 and c[0] in ("missing", "badurl", "refusedurl"):
                 continue          # quick tier: the rows of the string kinds once (the string route varies the strings)
-            cases.append({"fx": fx, "cfg": c})
-        for c in rng.sample(cfgs, 20 if tier == "quick" else 25):
+            case = {"fx": fx, "cfg": c}
+            if rng.random() < 0.25:
+                case["oform"] = rng.randrange(1, 10 ** 6)      # the same row, the options written another way
+            cases.append(case)
+        for c in rng.sample(cfgs, 12 if tier == "quick" else 25):
             cases.append({"fx": fx, "cfg": c, "sub": 1})
-        if s == 0 or (tier == "thorough" and s < 5):
+        if s == 0 or (tier == "thorough" and s < 3):
             cases += gen_strings(rng, fx, tier)
         cases += gen_spellings(rng, fx, tier)
-        many = gen_many(rng, fx, 200 if tier == "quick" else 1200)
+        cases += gen_raw_hist(rng, fx, tier, s)
+        many = gen_many(rng, fx, 170 if tier == "quick" else 800)
+        for c in many:
+            if rng.random() < 0.3:
+                c["oform"] = rng.randrange(1, 10 ** 6)
+        # no argument at all, and a long list of arguments
+        many.append({"fx": fx, "multi": {"args": [], "type": "auto", "deref": 1, "fname": 1, "recur": 0, "ver": "none", "patterns": []}})
+        pool = [r for r in REF_KIND if r not in UNIDENTIFIABLE and REF_KIND[r] not in ("dangle", "loop", "stdin")]
+        many.append({"fx": fx, "multi": {"args": [rng.choice(pool) for _ in range(40 if tier == "quick" else 150)], "type": "auto",
+                                         "deref": rng.choice([0, 1]), "fname": 1, "recur": 0, "ver": "none", "patterns": ["sub*"]}})
         for c in rng.sample(many, 4 if tier == "quick" else 15):
             many.append({"fx": fx, "multi": c["multi"], "sub": 1})
         cases += many
@@ -1352,14 +1754,21 @@ def gen_spellings(rng, fx, tier):
     cases, subs = [], []
     for obj in OBJ_KIND:
         natural = {"file": "content", "linkfile": "content", "dir": "directory", "linkdir": "directory", "gitrepo": "directory",
-                   "dangle": "content", "loop": "content"}[OBJ_KIND[obj]]
-        spells = [q for q in SPELLINGS if not (q in TOP_ONLY and obj in NOT_IN_ROOT)]
+                   "dangle": "content", "loop": "content", "badrefs": "snapshot", "fifo": "auto"}[OBJ_KIND[obj]]
+        if obj == "gitdir":
+            natural = "snapshot"
+        spells = [q for q in SPELLINGS if spelling_applies(obj, q, fx)]
+        if not spells:
+            continue
         if tier == "quick" and obj in CHAIN_OBJS:
             # quick tier: a chain plain, through the link elsewhere, and two more spellings
             keep = ["plain"] + (["uplink"] if "uplink" in spells else [])
+            spells = keep + rng.sample([q for q in spells if q not in keep], 1)
+        elif tier == "quick":
+            keep = [q for q in spells if q in ("plain", "uplink", "slash", "cwddot", "cwdup")]
             spells = keep + rng.sample([q for q in spells if q not in keep], 2)
         for spell in spells:
-            for rel in (0, 1):
+            for rel in ((0,) if spell in CWD_SPELLINGS or spell == "lead2" else (0, 1)):
                 combos = [("auto", 1, 1, 0, "none", 0), ("auto", 0, 0, 0, "match", 1), (natural, 1, 1, 1, "none", 1),
                           ("auto", 1, 0, 1, "none", 0), (natural, 0, 1, 0, "match", 0), ("auto", 0, 1, 1, "nonmatch", 0)]
                 if tier == "quick":
@@ -1372,15 +1781,35 @@ def gen_spellings(rng, fx, tier):
                     k = eff_kind(obj, spell, d)
                     if k == "missing":
                         t = rng.choice(["auto", "auto", natural])
-                        if OBJ_KIND[obj] in ("dangle", "loop"):
+                        if OBJ_KIND[obj] in ("dangle", "loop", "fifo"):
                             t = rng.choice(["auto", "auto", "origin"])     # explicit content/directory: not in the table
                     elif OBJ_KIND[obj] in ("dangle", "loop") and t == "directory":
                         t = "auto"
                     c = {"fx": fx, "cfg": [k, t, d, f, r, v, x], "path": {"obj": obj, "spell": spell, "rel": rel}}
+                    if rng.random() < 0.3:
+                        c["oform"] = rng.randrange(1, 10 ** 6)
                     cases.append(c)
                     if spell != "plain":
                         subs.append(dict(c, sub=1))
     return cases + rng.sample(subs, 4 if tier == "quick" else 15)
+
+
+def gen_raw_hist(rng, fx, tier, s):
+    cases = []
+    if s == 0 or tier == "thorough":
+        cases += [{"fx": fx, "raw": {"args": a, "expect": "usage"}} for a in RAW_USAGE]
+        cases += [{"fx": fx, "raw": {"args": a, "expect": "help"}} for a in RAW_HELP]
+        cases += [{"fx": fx, "raw": {"args": a, "expect": b}} for a, b in RAW_SAME]
+    for kind in ("file", "dir", "linkfile", "linkdir"):
+        natural = "content" if kind in ("file", "linkfile") else "directory"
+        for change in ("rewrite", "same"):
+            for (t, d, f) in [("auto", 1, 1), ("auto", 0, 0), (natural, 1, 0)]:
+                if kind == "linkdir" and t == "directory" and not d:
+                    continue
+                if kind in ("linkfile", "linkdir") and t == natural and not d and natural == "directory":
+                    continue
+                cases.append({"fx": fx, "hist": {"kind": kind, "type": t, "deref": d, "fname": f, "change": change}})
+    return cases
 
 
 def gen_strings(rng, fx, tier):
@@ -1405,6 +1834,10 @@ def gen_strings(rng, fx, tier):
 
 
 def nontrivial(c):
+    if "raw" in c:
+        return len(c["raw"]["args"]) >= 2
+    if "hist" in c:
+        return True
     if "multi" in c:
         m = c["multi"]
         return len(m["args"]) >= 2 and ((m["type"] != "auto") + (not m["deref"]) + (not m["fname"]) + bool(m["recur"])
@@ -1415,6 +1848,10 @@ def nontrivial(c):
 
 
 def classify(c):
+    if "raw" in c:
+        return ["raw-invocation", "raw:" + (c["raw"]["expect"] if isinstance(c["raw"]["expect"], str) else "same-as")]
+    if "hist" in c:
+        return ["history", "history:%s:%s" % (c["hist"]["kind"], c["hist"]["change"])]
     if "multi" in c:
         m = c["multi"]
         row = many_row(m)
@@ -1462,12 +1899,16 @@ def classify(c):
 
 
 def requests(c):
+    if "raw" in c or "hist" in c:
+        return ["count"]               # nothing of the table is involved
     if "multi" in c:
         return [many_req(c["multi"])]
     return [cfg_req(c["cfg"])]
 
 
 def model(c, resp):
+    if "raw" in c or "hist" in c:
+        return {"count": resp[0]}
     if "multi" in c:
         return parse_many(resp[0])
     return parse_row(resp[0])
@@ -1477,6 +1918,9 @@ def oracle(c, ires, mres):
     """the property on the implementation: in scope, the command behaves as the specification says"""
     if "error" in ires:
         return None          # harness failure: reported by compare()
+    if "raw_diff" in ires or "hist_diff" in ires:
+        why = ires.get("raw_diff") or ires.get("hist_diff")
+        return "%s: %s" % (" ".join(ires["args"]), why) if why else None
     if mres.get("inscope") != "1":
         return None
     if ires["outcomes"]["spec"] != mres["spec"]:
@@ -1492,6 +1936,8 @@ def oracle(c, ires, mres):
 def compare(c, ires, mres):
     if "error" in ires:
         return "harness error " + ires["error"] + " " + ires.get("trace", "")
+    if "raw" in c or "hist" in c:
+        return None
     if ires["outcomes"] != {"model": mres.get("model"), "spec": mres.get("spec")}:
         return "driver answers differ between two calls: %r / %r" % (ires["outcomes"], mres)
     if ires["diff_model"]:
@@ -1500,6 +1946,8 @@ def compare(c, ires, mres):
 
 
 def shrink(c):
+    if "raw" in c or "hist" in c:
+        return
     if "multi" in c:
         m = c["multi"]
         def mk(**kw):
@@ -1594,6 +2042,8 @@ def coq_cases(cases):
     from . import core
     seen, mseen = {}, {}
     for c in cases:
+        if "raw" in c or "hist" in c:
+            continue
         if "multi" in c:
             if len(mseen) < 600:
                 mseen.setdefault(many_req(c["multi"]), c)
@@ -1603,13 +2053,14 @@ def coq_cases(cases):
     reqs = [cfg_req(c["cfg"]) for c in seen.values()]
     mreqs = list(mseen)
     KIND = {"file": "AFile", "dir": "ADir", "linkfile": "ALinkFile", "linkdir": "ALinkDir", "stdin": "AStdin", "url": "AUrl",
-            "gitrepo": "AGitRepo", "missing": "AMissing", "badurl": "ABadUrl", "refusedurl": "ARefusedUrl"}
+            "gitrepo": "AGitRepo", "missing": "AMissing", "badurl": "ABadUrl", "refusedurl": "ARefusedUrl",
+            "badrefs": "ABadRefsRepo"}
     TYPE = {"auto": "TAuto", "content": "TContent", "directory": "TDirectory", "origin": "TOrigin", "snapshot": "TSnapshot"}
     VER = {"none": "VNone", "match": "VMatch", "nonmatch": "VNonMatch"}
     B = {"1": "true", "0": "false"}
     OBJ = ["pathcontent", "linktext", "targetfile", "empty", "stdin", "dirpath", "dirtarget", "origin", "snapshot", "nothing",
-           "refused"]
-    CRASH = ["TypeError", "NotADirectoryError", "FileNotFoundError", "NotGitRepository", "ValueError"]
+           "refused", "unreadable"]
+    CRASH = ["TypeError", "NotADirectoryError", "FileNotFoundError", "NotGitRepository", "ValueError", "StopIteration"]
     def term(rq):
         _, k, t, d, f, r, v, x = rq.split(" ")
         return "mkCfg %s %s %s %s %s %s %s" % (KIND[k], TYPE[t], B[d], B[f], B[r], VER[v], B[x])
@@ -1623,13 +2074,15 @@ Definition objn (o : obj) : N :=
   match o with
   | OPathContent => 0 | OLinkText => 1 | OTargetFile => 2 | OEmptyContent => 3 | OStdin => 4 | ODirAtPath => 5
   | ODirAtLinkTarget => 6 | OOrigin => 7 | OSnapshot => 8 | ONothing => 9 | ORefusedOrigin => 10
+  | OUnreadableSnapshot => 11
   end%N.
 Definition crashn (c : crash) : N :=
-  match c with CrTypeError => 0 | CrNotADirectory => 1 | CrFileNotFound => 2 | CrNotGitRepository => 3 | CrValueError => 4 end%N.
+  match c with CrTypeError => 0 | CrNotADirectory => 1 | CrFileNotFound => 2 | CrNotGitRepository => 3 | CrValueError => 4
+  | CrStopIteration => 5 end%N.
 Definition outc (o : outcome) : list N :=
   match o with
   | Print o e s l => [1%N; objn o; b e; b s; b l]
-  | Usage => [2%N] | Exit0 => [3%N] | Exit1 => [4%N]
+  | Usage => [2%N] | Exit0 => [3%N] | Exit1 => [4%N] | Silent => [6%N]
   | Crash c => [5%N; crashn c]
   end.
 Definition row (c : cfg) : list N :=
@@ -1637,7 +2090,7 @@ Definition row (c : cfg) : list N :=
   [b (in_scope c); b (in_scope_literal c); objn o; b e]
   ++ outc (identify_model c) ++ outc (spec c) ++ outc (spec_strict c)
   ++ outc (identify_old_realpath c) ++ outc (identify_old_rectype c) ++ outc (identify_old_autolink c)
-  ++ outc (identify_old_recfollows c) ++ outc (identify_old_originuncaught c).
+  ++ outc (identify_old_recfollows c) ++ outc (identify_old_originuncaught c) ++ outc (identify_old_stopswallowed c).
 Definition endn (e : mend) : list N :=
   match e with MDone => [1%N] | MUsageEnd => [2%N] | MExit0 => [3%N] | MExit1 => [4%N] | MCrashEnd c => [5%N; crashn c] end.
 Definition runc (r : mout) : list N :=
@@ -1653,12 +2106,12 @@ Definition mrow (p : cfg * list argkind) : list N :=
             return [1, OBJ.index(p[1]), int(p[2]), int(p[3]), int(p[4])]
         if p[0] == "crash":
             return [5, CRASH.index(p[1])]
-        return [{"usage": 2, "exit0": 3, "exit1": 4}[p[0]]]
+        return [{"usage": 2, "exit0": 3, "exit1": 4, "silent": 6}[p[0]]]
     def row(line):
         r = parse_row(line)
         o, e = r["des"].split(",")
         out = [int(r["inscope"]), int(r["literal"]), OBJ.index(o), int(e)]
-        for k in ("model", "spec", "strict", "old1", "old2", "old3", "old4", "old5"):
+        for k in ("model", "spec", "strict", "old1", "old2", "old3", "old4", "old5", "old6"):
             out += outc(r[k])
         return out
     def runc(tok):
